@@ -49,7 +49,7 @@ def load_checks():
 
 # ------------------------------------------------------------------ worker
 def _job_opts(params):
-    opts = dict(max_paths=200000, timeout_s=900, qtimeout_ms=20000, max_violations=5)
+    opts = dict(max_paths=200000, timeout_s=1800, qtimeout_ms=120000, max_violations=5)
     for k in list(opts):
         if "_" + k in params:
             opts[k] = params["_" + k]
